@@ -55,6 +55,16 @@ def write_pcapng(items, cfg):
     if cfg.get("shb_opts"):
         shb_body += _opt(e, 2, b"simtle hw") + _opt(e, 3, b"simtle os") + _opt(e, 4, b"simtle tap") + _opt(e, 0, b"")
     out.append(_block(e, 0x0A0D0D0A, shb_body))
+    if cfg.get("dsb_before_idb"):
+        # legal: a Decryption Secrets Block may precede the Interface Description Block
+        rest = []
+        for it in items:
+            if it[0] == "dsb" and not any(x[0] == "pkt" for x in rest):
+                text = it[1]
+                out.append(_block(e, 0x0A, struct.pack(e + "II", 0x544C534B, len(text)) + _pad4(text)))
+            else:
+                rest.append(it)
+        items = rest
     idb = struct.pack(e + "HHI", 1, 0, cfg.get("snaplen", 0x40000))
     opts = b""
     if cfg.get("idb_name"):
